@@ -14,6 +14,8 @@
 // Templates in sub-directories that refer to each other by ./ and ../ names are served by the harness
 // loader and by a real FileSystemLoader; the target the relative name RESOLVES to is made to fail
 // (loader error for exactly that name, syntax error in it, unreadable file, missing).
+// Repeated renders on one engine with a persistent fault, and faults switched on and off between
+// renders: repeat.go.
 package main
 
 import (
@@ -1409,14 +1411,18 @@ func main() {
 			"template name is replaced once by an unresolvable one; thorough adds every pair of armed invocations. Templates in sub-directories referring to each other " +
 			"by ./ and ../ names (include with every option set, extends, import, from; with and without a template under the name as written) get the RESOLVED target " +
 			"faulted: loader failure for exactly that name, a syntax error in it, the name missing — through the harness loader and through a FileSystemLoader on a " +
-			"temporary directory (unreadable target = a directory in place of the file). Non-trivial = the armed invocation really happened " +
-			"(or the renamed site is reached in the fault-free run)",
+			"temporary directory (unreadable target = a directory in place of the file). REPEATED RENDERS on one engine: every fault that persists (a callback / a loader " +
+			"that fails at EVERY invocation, every unresolvable name, a referenced template with a syntax error) is rendered three times on the same engine, template cache " +
+			"on and off — every render must fail with the cause reachable; and every fault is switched on and off between five renders on one engine (template replaced by a " +
+			"failing version through RegisterString / through the loader with cache off / with auto-reload, and back; loader or callback that starts to fail and recovers). " +
+			"Non-trivial = the armed invocation really happened (or the renamed site is reached in the fault-free run)",
 		Assumptions: []string{
 			"positions and expression forms outside the listed corpus are not explored; at most two failures per render",
 			"a loader that fails while a LATER loader has the template is not generated (whether the later loader may serve it is not determined by the statement)",
 			"a name that is never reached (dead branch, short-circuited operand) is not renamed: whether it must be resolved is not determined by the statement",
 			"for RenderTo only the returned error is checked (partial output may already have been written to the caller's writer)",
 			"sandboxed includes and security-policy violations are outside this property",
+			"repeated renders: renders made while a switched fault is OFF are not judged (recovery is not part of the statement); a loader whose content changes while the cache is on without auto-reload is not generated",
 		},
 		QuickDeadline:    150,
 		ThoroughDeadline: 840,
@@ -1599,6 +1605,185 @@ func runAll(t *vlib.T) {
 							return o
 						}
 						return nameCase(pr, mode, "fs", st, kind, kind == "missing" && st.Ignore, "FileSystemLoader; the target "+st.Ref+" of "+st.Written+" at site "+st.Key+": "+kind)
+					})
+				}
+			}
+		}
+	}
+	// phase 4: REPEATED RENDERS on one engine with a persistent fault (three renders, cache on and off)
+	repModes := func(pr *program, cache string) []string {
+		switch {
+		case t.Thorough() && !pr.nested:
+			return []string{"R", "D", "W", "T", "K"}
+		case t.Thorough() && cache == "on":
+			return []string{"R", "D"}
+		case t.Thorough():
+			return []string{"R"}
+		case pr.nested:
+			if cache == "off" {
+				return nil
+			}
+			return []string{"R"}
+		case cache == "off":
+			return []string{"R"}
+		}
+		return []string{"R", "D"}
+	}
+	for _, cache := range []string{"on", "off"} {
+		for i, pr := range progs {
+			b := bases[i]
+			if !b.ok || (cache == "off" && pr.hasAPITemplate()) {
+				continue
+			}
+			for _, mode := range repModes(pr, cache) {
+				pfx := pr.id + "|" + mode + "|rep-" + cache + "|"
+				// a callback that always fails, a loader that always fails for one name
+				for _, key := range b.keys {
+					variants := []string{"solo"}
+					if key[0] == 'L' && t.Thorough() && !pr.nested {
+						variants = []string{"solo", "chainafterempty"}
+					}
+					for _, value := range []bool{false, true} {
+						if value && (key[0] == 'L' || !t.Thorough() || pr.nested) {
+							continue
+						}
+						for _, variant := range variants {
+							pr, mode, cache, key, value, variant := pr, mode, cache, key, value, variant
+							fl := "nil"
+							if value {
+								fl = "value"
+							}
+							t.Case(pfx+variant+"|"+key+"#*/"+fl, func() *vlib.Outcome {
+								return repeatFaultCase(pr, mode, variant, cache, key, value, "every invocation of "+siteKind(key)+" "+key+" fails, returning ("+fl+", err)")
+							})
+						}
+					}
+				}
+				// a name that cannot be resolved, a referenced template with a syntax error
+				for _, st := range pr.sites {
+					st := st
+					pr, mode, cache := pr, mode, cache
+					switch st.Kind {
+					case 'f', 'g', 't', 'u':
+						if b.counts[st.Key] == 0 {
+							continue // never reached
+						}
+						t.Case(pfx+"name:"+st.Key, func() *vlib.Outcome {
+							return repeatNameCase(pr, mode, "solo", cache, st, "callback", false, "unknown "+siteKind(st.Key)+" name at site "+st.Key)
+						})
+					case 'M':
+						t.Case(pfx+"name:"+st.Key, func() *vlib.Outcome {
+							return repeatNameCase(pr, mode, "solo", cache, st, "macro", false, "unknown macro name at site "+st.Key+" ("+st.Ref+")")
+						})
+					case 'T':
+						if b.counts["L:"+st.Ref] == 0 && !strings.HasPrefix(pr.raw[st.Ref], "API-MACRO|") {
+							continue // the reference is never followed
+						}
+						ignore := st.Ignore
+						t.Case(pfx+"name:"+st.Key+":missing", func() *vlib.Outcome {
+							return repeatNameCase(pr, mode, "solo", cache, st, "missing", ignore, "template name at site "+st.Key+" ("+st.Written+") replaced by one no loader has")
+						})
+						t.Case(pfx+"name:"+st.Key+":broken", func() *vlib.Outcome {
+							return repeatNameCase(pr, mode, "solo", cache, st, "broken", false, "template name at site "+st.Key+" ("+st.Written+") replaced by a template with a syntax error")
+						})
+						t.Case(pfx+"name:"+st.Key+":brokeninplace", func() *vlib.Outcome {
+							return repeatNameCase(pr, mode, "solo", cache, st, "brokeninplace", false, "the template "+st.Ref+" that "+st.Written+" at site "+st.Key+" refers to has a syntax error")
+						})
+						if pr.pos.rel && !pr.nested && b.counts["L:"+st.Ref] > 0 && (mode == "R" || mode == "D") {
+							want := b.out
+							for _, kind := range []string{"missing", "broken", "brokeninplace", "isdir"} {
+								kind := kind
+								t.Case(pfx+"fs|name:"+st.Key+":"+kind, func() *vlib.Outcome {
+									res := run(pr, pr.sources(nil, false), mode, "fs", newPlan(nil, false))
+									if res.err != nil || res.out != want {
+										return &vlib.Outcome{Class: "relative/fs/baseline-differs", Counters: map[string]int64{"renders": 1, "fs_baseline_differs": 1}}
+									}
+									return repeatNameCase(pr, mode, "fs", cache, st, kind, kind == "missing" && st.Ignore, "FileSystemLoader; the target "+st.Ref+" of "+st.Written+" at site "+st.Key+": "+kind)
+								})
+							}
+						}
+					}
+				}
+			}
+		}
+	}
+	// phase 5: a fault that is switched ON and OFF between renders on one engine (healthy, failing, failing,
+	// healthy, failing): a template replaced by a failing version and back (RegisterString with the cache on;
+	// the loader's source with the cache off and with cache + auto-reload), a loader / a callback that starts
+	// to fail. Quick: the flat corpus with the value / sequence forms that are also used for nesting.
+	seqModes := []string{"R"}
+	if t.Thorough() {
+		seqModes = []string{"R", "D"}
+	}
+	for _, mode := range seqModes {
+		for i, pr := range progs {
+			b := bases[i]
+			if !b.ok {
+				continue
+			}
+			subset := nestedExprForms[pr.form] || nestedSeqForms[pr.form] || pr.form == "-"
+			switch {
+			case !pr.nested && (t.Thorough() || subset || pr.pos.hole == 'N'):
+			case pr.nested && t.Thorough() && subset && mode == "R":
+			default:
+				continue
+			}
+			pfx := pr.id + "|" + mode + "|seq|"
+			want := b.out
+			api := pr.hasAPITemplate()
+			for _, st := range pr.sites {
+				st := st
+				pr, mode := pr, mode
+				switch st.Kind {
+				case 'f', 'g', 't', 'u':
+					if b.counts[st.Key] == 0 || strings.HasPrefix(pr.raw[st.Tpl], "API-MACRO|") {
+						continue
+					}
+					desc := "template " + st.Tpl + " replaced by a version with an unknown " + siteKind(st.Key) + " name at site " + st.Key + " and back"
+					t.Case(pfx+"reg|name:"+st.Key, func() *vlib.Outcome {
+						return seqCase(pr, mode, "on", "reg", "name", st, "", want, desc)
+					})
+					if !api {
+						t.Case(pfx+"ldr|name:"+st.Key, func() *vlib.Outcome {
+							return seqCase(pr, mode, "off", "src", "name", st, "", want, desc)
+						})
+					}
+					t.Case(pfx+"reload|name:"+st.Key, func() *vlib.Outcome {
+						return seqCase(pr, mode, "reload", "src", "name", st, "", want, desc)
+					})
+				case 'T':
+					if b.counts["L:"+st.Ref] == 0 {
+						continue
+					}
+					desc := "template " + st.Ref + " (referred to at site " + st.Key + ") replaced by one with a syntax error and back"
+					if !api {
+						t.Case(pfx+"ldr|syntax:"+st.Key, func() *vlib.Outcome {
+							return seqCase(pr, mode, "off", "src", "syntax", st, "", want, desc)
+						})
+					}
+					t.Case(pfx+"reload|syntax:"+st.Key, func() *vlib.Outcome {
+						return seqCase(pr, mode, "reload", "src", "syntax", st, "", want, desc)
+					})
+				}
+			}
+			for _, key := range b.keys {
+				key := key
+				pr, mode := pr, mode
+				if key[0] == 'L' {
+					if !api {
+						t.Case(pfx+"off|"+key+"#*", func() *vlib.Outcome {
+							return seqCase(pr, mode, "off", "arm", "loaderfail", site{}, key, want, "the loader starts to fail for every Load of "+key[2:]+" and recovers")
+						})
+					}
+					continue
+				}
+				for _, cache := range []string{"on", "off"} {
+					if cache == "off" && api {
+						continue
+					}
+					cache := cache
+					t.Case(pfx+cache+"|"+key+"#*", func() *vlib.Outcome {
+						return seqCase(pr, mode, cache, "arm", "cb", site{}, key, want, siteKind(key)+" "+key+" starts to fail at every invocation and recovers")
 					})
 				}
 			}
